@@ -178,6 +178,12 @@ impl Scenario for HubCore {
                     }
                     prefix.push(advance(1));
                 }
+                "blocked_removal" => {
+                    // val1 was removed while a redelegation into it was in flight: its stake is stranded on an
+                    // unregistered validator until somebody calls Redelegations; the registered set is uneven
+                    cfg.registered = vec!["val1", "val2", "val3"];
+                    prefix = vec![bond(ALICE, 50 * k), bond_st(BOB, 110 * k), remove_validator(OWNER, "val3"), remove_validator(OWNER, "val1"), add_validator(OWNER, "val3")];
+                }
                 "bsei_all_pending" => {
                     prefix.push(unbond(ALICE, BSEI, 1000 * k));
                     prefix.push(accrue("val1", USEI, 1000 * k));
